@@ -41,10 +41,12 @@ func verifDecodeIpk(out []byte) (ipkView, bool) {
 	return d, true
 }
 
-func Verif_C01_C_IpkModes()   { verifIpkPayload(scen.Options{SymModes: true, Second: -1}) }
-func Verif_C01_C_IpkOwners()  { verifIpkPayload(scen.Options{SymOwners: true, Second: 1}) }
-func Verif_C01_C_IpkTimes()   { verifIpkPayload(scen.Options{SymTimes: true, Second: 3}) }
-func Verif_C01_C_IpkContent() { verifIpkPayload(scen.Options{SymContent: true, SymDst: true, SymType: true, Second: -1}) }
+func Verif_C01_C_IpkModes()  { verifIpkPayload(scen.Options{SymModes: true, Second: -1}) }
+func Verif_C01_C_IpkOwners() { verifIpkPayload(scen.Options{SymOwners: true, Second: 1}) }
+func Verif_C01_C_IpkTimes()  { verifIpkPayload(scen.Options{SymTimes: true, Second: 3}) }
+func Verif_C01_C_IpkContent() {
+	verifIpkPayload(scen.Options{SymContent: true, SymDst: true, SymType: true, Second: -1})
+}
 
 func verifIpkPayload(o scen.Options) {
 	sc := scen.Payload(o)
